@@ -1,5 +1,5 @@
-import XixiKV.Proofs.TransEq
-import XixiKV.Proofs.Record
+import XixiKV.Proofs.TransEq2Codec
+import XixiKV.Proofs.TransEq2Read
 /-!
 # The mechanically translated record / hint codecs and the position-based read equal the model
 
@@ -23,631 +23,3 @@ slices are both the empty `ByteArray`.  The varint primitives of the generated p
 `Varint` functions behind Go's return convention; `Uvarint_at` / `Varint_at` / `PutVarint_eq` connect them
 to the forms (`window`, `varintNat`, `putVarintNat`) the model codecs use.
 -/
-namespace XixiKV.TransEq
-open XixiKV XixiKV.Generated.Trans XixiKV.Frame XixiKV.Varint XixiKV.Record
-
-/-! ## the varint primitives of the prelude and the model's `Varint` functions -/
-
-/-- the model looks at a window of at most `k` bytes, Go's `Uvarint` at the whole rest of the buffer:
-    whenever the window suffices to decode a varint (`n ≠ 0`), the rest gives the same result -/
-theorem uvarintGo_take : ∀ (l : List UInt8) (k i s x v n : Nat),
-    uvarintGo (l.take k) i s x = some (v, n) → n ≠ 0 → uvarintGo l i s x = some (v, n)
-  | [], k, i, s, x, v, n, h, _ => by simpa using h
-  | b :: bs, 0, i, s, x, v, n, h, hn => by
-    simp only [List.take_zero, uvarintGo, Option.some.injEq, Prod.mk.injEq] at h
-    omega
-  | b :: bs, k+1, i, s, x, v, n, h, hn => by
-    simp only [List.take_succ_cons, uvarintGo] at h ⊢
-    split
-    · rename_i h10; rw [if_pos h10] at h; exact h
-    · rename_i h10; rw [if_neg h10] at h
-      split
-      · rename_i hb; rw [if_pos hb] at h; exact h
-      · rename_i hb; rw [if_neg hb] at h
-        exact uvarintGo_take bs k _ _ _ v n h hn
-
-theorem toList_extract_to_end (data : ByteArray) (k : Nat) :
-    (data.extract k data.size).data.toList = data.data.toList.drop k := by
-  rw [ByteArray.data_extract, Array.toList_extract, List.extract_eq_take_drop]
-  apply List.take_of_length_le
-  rw [List.length_drop, Array.length_toList]
-  exact Nat.le_refl _
-
-/-- `binary.Uvarint(data[k:])` where the model decodes a varint in the 10-byte window at `k` -/
-theorem Uvarint_at {data : ByteArray} {k v n : Nat} (h : uvarint (window data k 10) = some (v, n)) (hn : n ≠ 0)
-    (i : Int) (hi : i = (k : Int)) :
-    binary_Uvarint (data.extract i.toNat data.size) = (v, (n : Int)) := by
-  subst hi
-  rw [Int.toNat_natCast]
-  unfold binary_Uvarint
-  rw [toList_extract_to_end]
-  rw [window_eq] at h
-  unfold uvarint at h ⊢
-  rw [uvarintGo_take _ _ _ _ _ _ _ h hn]
-
-/-- `binary.Varint(data[k:])` where the model decodes a non-negative varint in the window at `k` -/
-theorem Varint_at {data : ByteArray} {k v n : Nat} (h : varintNat (window data k 10) = some (v, n)) (hn : n ≠ 0)
-    (i : Int) (hi : i = (k : Int)) :
-    binary_Varint (data.extract i.toNat data.size) = ((v : Int), (n : Int)) := by
-  unfold varintNat at h
-  split at h
-  · rename_i ux m hu
-    split at h
-    · rename_i heven
-      simp only [Option.some.injEq, Prod.mk.injEq] at h
-      obtain ⟨h1, h2⟩ := h
-      subst h1 h2
-      unfold binary_Varint
-      rw [Uvarint_at hu hn i hi]
-      simp only [if_pos heven]
-    · cases h
-  · cases h
-
-/-- a decoded varint is at most 10 bytes long and below 2^64 -/
-theorem uvarintGo_bound : ∀ (l : List UInt8) (i s x v n : Nat),
-    uvarintGo l i s x = some (v, n) → i ≤ 10 → n ≤ 10
-  | [], i, s, x, v, n, h, _ => by
-    simp only [uvarintGo, Option.some.injEq, Prod.mk.injEq] at h; omega
-  | b :: bs, i, s, x, v, n, h, hi => by
-    simp only [uvarintGo] at h
-    split at h
-    · cases h
-    · split at h
-      · split at h
-        · cases h
-        · simp only [Option.some.injEq, Prod.mk.injEq] at h; omega
-      · exact uvarintGo_bound bs _ _ _ v n h (by omega)
-
-/-- `PutUvarint` writes the model's bytes -/
-theorem PutUvarint_eq (x : Nat) : binary_PutUvarint x = ofList (putUvarint x) := rfl
-/-- `PutVarint` of a non-negative `int64` writes the model's zig-zag bytes -/
-theorem PutVarint_eq (n : Nat) : binary_PutVarint (n : Int) = ofList (putVarintNat n) := by
-  unfold binary_PutVarint putVarintNat
-  rw [if_pos (by omega), PutUvarint_eq]
-  congr 2
-
-/-! ## byte-buffer primitives -/
-
-@[simp] theorem size_mkBytes (n : Nat) : (mkBytes n).size = n := by simp [mkBytes, ByteArray.size]
-
-/-- `make` + `copy` of an in-bounds sub-slice is `extract` (the indices are Go `int`s) -/
-theorem copy_fresh (data : ByteArray) (N A B : Int) (a n : Nat) (hN : N = n) (hA : A = a) (hB : B = a + n)
-    (hle : a + n ≤ data.size) :
-    copySlice (mkBytes N.toNat) (data.extract A.toNat B.toNat) = data.extract a (a + n) := by
-  subst hN hA
-  have hB' : B.toNat = a + n := by omega
-  rw [hB', Int.toNat_natCast, Int.toNat_natCast]
-  unfold copySlice
-  have hs : (data.extract a (a + n)).size = n := by rw [ByteArray.size_extract]; omega
-  rw [size_mkBytes, hs, extract_all _ _ (by omega), extract_ge_size (mkBytes n) n n (by rw [size_mkBytes]; exact Nat.le_refl _)]
-  simp
-
-theorem empty_eq_extract (data : ByteArray) (a n : Nat) (hn : n = 0) : ByteArray.empty = data.extract a (a + n) := by
-  subst hn
-  exact (ByteArray.extract_eq_empty_iff.2 (by omega)).symm
-
-/-! ## `DecodeLogRecord`, `DecodeLogRecordValue` -/
-
-/-- what `decodeHeader = some h` says about the three varints -/
-theorem decodeHeader_some {data : ByteArray} {h : Header} (hh : decodeHeader data = some h) :
-    ∃ n1 n2 n3, n1 ≠ 0 ∧ n2 ≠ 0 ∧ n3 ≠ 0 ∧
-      varintNat (window data 1 10) = some (h.ksize, n1) ∧
-      varintNat (window data (1 + n1) 10) = some (h.vsize, n2) ∧
-      uvarint (window data (1 + n1 + n2) 10) = some (h.batch, n3) ∧
-      h.typ = (data.get! 0).toNat ∧ h.hlen = 1 + n1 + n2 + n3 := by
-  unfold decodeHeader at hh
-  split at hh
-  · cases hh
-  · split at hh
-    · cases hh
-    · rename_i ks n1 h1
-      split at hh
-      · cases hh
-      · rename_i hn1
-        split at hh
-        · cases hh
-        · rename_i vs n2 h2
-          split at hh
-          · cases hh
-          · rename_i hn2
-            split at hh
-            · cases hh
-            · rename_i b n3 h3
-              split at hh
-              · cases hh
-              · rename_i hn3
-                cases hh
-                exact ⟨n1, n2, n3, hn1, hn2, hn3, h1, h2, h3, rfl, rfl⟩
-
-/-- the Go struct of a model record (`nil` and empty slices are both the empty `ByteArray`) -/
-def goRecord (r : Record) : datafile.LogRecord :=
-  { Type_ := r.typ, Key := r.key, Value := r.value, BatchID := r.batch }
-
-theorem trans_DecodeLogRecord_eq (data : ByteArray) (r : Record) (hsz : data.size < 2^63)
-    (h : decodeRecord data = some r) : datafile.DecodeLogRecord data = goRecord r := by
-  unfold decodeRecord at h
-  split at h
-  · cases h
-  · rename_i hd hh
-    split at h
-    · cases h
-    · rename_i hfit
-      cases h
-      obtain ⟨n1, n2, n3, hn1, hn2, hn3, h1, h2, h3, ht, hl⟩ := decodeHeader_some hh
-      have v1 := Varint_at h1 hn1
-      have v2 := Varint_at h2 hn2
-      have v3 := Uvarint_at h3 hn3
-      unfold goRecord
-      by_cases hk0 : hd.ksize = 0 <;> by_cases hv0 : hd.vsize = 0
-      all_goals simp (disch := omega) only [datafile.DecodeLogRecord, v1, v2, v3, i64_of_range, if_pos, if_neg]
-      all_goals
-        rw [datafile.LogRecord.mk.injEq]
-        refine ⟨ht.symm, ?_, ?_, rfl⟩ <;>
-          first
-          | exact copy_fresh data _ _ _ _ _ (by omega) (by omega) (by omega) (by omega)
-          | exact empty_eq_extract _ _ _ (by omega)
-
-/-- consequence (with `decodeRecord_encodeRecord`): the translated Go decoder reads back every record
-    the model encoder writes -/
-theorem trans_DecodeLogRecord_enc (r : Record) (ht : r.typ < 256) (hk : r.key.size < 2 ^ 31)
-    (hv : r.value.size < 2 ^ 31) (hb : r.batch < 2 ^ 64) :
-    datafile.DecodeLogRecord (encodeRecord r) = goRecord r := by
-  have := encodeRecord_header_le r hk hv hb
-  exact trans_DecodeLogRecord_eq _ r (by omega) (decodeRecord_encodeRecord r ht hk hv hb)
-
-example : datafile.DecodeLogRecord (encodeRecord ⟨1, ⟨#[0x6b, 0x31]⟩, ⟨#[0x76]⟩, 300⟩)
-    = { Type_ := 1, Key := ⟨#[0x6b, 0x31]⟩, Value := ⟨#[0x76]⟩, BatchID := 300 } :=
-  trans_DecodeLogRecord_enc ⟨1, ⟨#[0x6b, 0x31]⟩, ⟨#[0x76]⟩, 300⟩ (by decide) (by decide) (by decide) (by decide)
-
-theorem trans_DecodeLogRecordValue_eq (data : ByteArray) (v : ByteArray) (hsz : data.size < 2^63)
-    (h : decodeValue data = some v) : datafile.DecodeLogRecordValue data = v := by
-  unfold decodeValue at h
-  split at h
-  · cases h
-  · rename_i hd hh
-    split at h
-    · cases h
-    · rename_i hfit
-      cases h
-      obtain ⟨n1, n2, n3, hn1, hn2, hn3, h1, h2, h3, ht, hl⟩ := decodeHeader_some hh
-      have v1 := Varint_at h1 hn1
-      have v2 := Varint_at h2 hn2
-      have v3 := Uvarint_at h3 hn3
-      by_cases hv0 : hd.vsize = 0
-      all_goals simp (disch := omega) only [datafile.DecodeLogRecordValue, v1, v2, v3, i64_of_range, if_pos, if_neg]
-      all_goals first
-        | exact copy_fresh data _ _ _ _ _ (by omega) (by omega) (by omega) (by omega)
-        | exact empty_eq_extract _ _ _ (by omega)
-
-theorem trans_DecodeLogRecordValue_enc (r : Record) (ht : r.typ < 256) (hk : r.key.size < 2 ^ 31)
-    (hv : r.value.size < 2 ^ 31) (hb : r.batch < 2 ^ 64) :
-    datafile.DecodeLogRecordValue (encodeRecord r) = r.value := by
-  have := encodeRecord_header_le r hk hv hb
-  exact trans_DecodeLogRecordValue_eq _ _ (by omega) (decodeValue_encodeRecord r ht hk hv hb)
-
-example : datafile.DecodeLogRecordValue (encodeRecord ⟨0, ⟨#[0x6b, 0x31]⟩, ⟨#[0x76, 0x77]⟩, 0⟩) = ⟨#[0x76, 0x77]⟩ :=
-  trans_DecodeLogRecordValue_enc ⟨0, ⟨#[0x6b, 0x31]⟩, ⟨#[0x76, 0x77]⟩, 0⟩ (by decide) (by decide) (by decide) (by decide)
-
-/-! ## `DecodeHintRecord` -/
-
-theorem decodeHint_some {buf key : ByteArray} {p : Pos} (hh : decodeHint buf = some (key, p)) :
-    ∃ fid blk off sz n1 n2 n3 n4, n1 ≠ 0 ∧ n2 ≠ 0 ∧ n3 ≠ 0 ∧ n4 ≠ 0 ∧
-      uvarint (window buf 0 10) = some (fid, n1) ∧
-      uvarint (window buf n1 10) = some (blk, n2) ∧
-      uvarint (window buf (n1 + n2) 10) = some (off, n3) ∧
-      uvarint (window buf (n1 + n2 + n3) 10) = some (sz, n4) ∧
-      key = buf.extract (n1 + n2 + n3 + n4) buf.size ∧
-      p = { fid := fid % 2^32, block := blk % 2^32, off := off % 2^32, size := sz % 2^32 } := by
-  unfold decodeHint at hh
-  split at hh
-  · cases hh
-  · rename_i fid n1 h1
-    split at hh
-    · cases hh
-    · rename_i hn1
-      split at hh
-      · cases hh
-      · rename_i blk n2 h2
-        split at hh
-        · cases hh
-        · rename_i hn2
-          split at hh
-          · cases hh
-          · rename_i off n3 h3
-            split at hh
-            · cases hh
-            · rename_i hn3
-              split at hh
-              · cases hh
-              · rename_i sz n4 h4
-                split at hh
-                · cases hh
-                · rename_i hn4
-                  cases hh
-                  exact ⟨fid, blk, off, sz, n1, n2, n3, n4, hn1, hn2, hn3, hn4, h1, h2, h3, h4, rfl, rfl⟩
-
-/-- the Go struct of a model position -/
-def goPos (p : Pos) : datafile.DataPos := { Fid := p.fid, BlockID := p.block, Offset := p.off, Size := p.size }
-
-theorem trans_DecodeHintRecord_eq (buf key : ByteArray) (p : Pos)
-    (h : decodeHint buf = some (key, p)) : datafile.DecodeHintRecord buf = (key, goPos p) := by
-  obtain ⟨fid, blk, off, sz, n1, n2, n3, n4, hn1, hn2, hn3, hn4, h1, h2, h3, h4, hkey, hp⟩ := decodeHint_some h
-  have b1 := uvarintGo_bound _ _ _ _ _ _ h1 (by omega)
-  have b2 := uvarintGo_bound _ _ _ _ _ _ h2 (by omega)
-  have b3 := uvarintGo_bound _ _ _ _ _ _ h3 (by omega)
-  have b4 := uvarintGo_bound _ _ _ _ _ _ h4 (by omega)
-  have v1 := Uvarint_at h1 hn1
-  have v2 := Uvarint_at h2 hn2
-  have v3 := Uvarint_at h3 hn3
-  have v4 := Uvarint_at h4 hn4
-  subst hkey hp
-  unfold goPos
-  simp (disch := omega) only [datafile.DecodeHintRecord, v1, v2, v3, v4, i64_of_range]
-  rw [Prod.mk.injEq]
-  refine ⟨?_, rfl⟩
-  congr 1
-  omega
-
-theorem trans_DecodeHintRecord_enc (key : ByteArray) (p : Pos) (h1 : p.fid < 2 ^ 32) (h2 : p.block < 2 ^ 32)
-    (h3 : p.off < 2 ^ 32) (h4 : p.size < 2 ^ 32) :
-    datafile.DecodeHintRecord (encodeHint key p) = (key, goPos p) :=
-  trans_DecodeHintRecord_eq _ _ _ (decodeHint_encodeHint key p h1 h2 h3 h4)
-
-example : datafile.DecodeHintRecord (encodeHint ⟨#[0x6b]⟩ ⟨3, 70000, 5, 300⟩)
-    = (⟨#[0x6b]⟩, { Fid := 3, BlockID := 70000, Offset := 5, Size := 300 }) :=
-  trans_DecodeHintRecord_enc ⟨#[0x6b]⟩ ⟨3, 70000, 5, 300⟩ (by decide) (by decide) (by decide) (by decide)
-
-/-! ## `EncodeLogRecord`, `EncodeHintRecord` -/
-
-/-- buffer `b` has `n` bytes and starts with the bytes `p` -/
-def Pre (b p : ByteArray) (n : Nat) : Prop := b.size = n ∧ p.size ≤ n ∧ b.extract 0 p.size = p
-
-theorem pre_empty (b : ByteArray) : Pre b ByteArray.empty b.size :=
-  ⟨rfl, by simp, ByteArray.extract_eq_empty_iff.2 (by simp)⟩
-
-theorem size_putAt (b s : ByteArray) (k : Nat) (h : k + s.size ≤ b.size) : (putAt b k s).size = b.size := by
-  unfold putAt
-  simp only [ByteArray.size_append, ByteArray.size_extract]
-  omega
-
-/-- writing `s` right behind the prefix `p` (at an index `k` that equals `p.size`) extends the prefix -/
-theorem pre_putAt {b p s : ByteArray} {k n : Nat} (hpre : Pre b p n) (hk : k = p.size) (hfit : p.size + s.size ≤ n) :
-    Pre (putAt b k s) (p ++ s) n := by
-  obtain ⟨h0, h1, h2⟩ := hpre
-  subst hk h0
-  refine ⟨size_putAt _ _ _ hfit, by rw [ByteArray.size_append]; exact hfit, ?_⟩
-  unfold putAt
-  rw [h2, ByteArray.extract_append, extract_all (p ++ s) _ (Nat.le_refl _),
-    ByteArray.extract_eq_empty_iff.2 (by omega)]
-  simp
-
-theorem pre_extract {b p : ByteArray} {j n : Nat} (hpre : Pre b p n) (hj : j = p.size) : b.extract 0 j = p := by
-  subst hj; exact hpre.2.2
-
-theorem ofList_cons (t : UInt8) (l : List UInt8) : ofList (t :: l) = ByteArray.mk #[t] ++ ofList l := by
-  apply ByteArray.ext; simp [ofList, ByteArray.data_append]
-theorem ofList_append (l m : List UInt8) : ofList (l ++ m) = ofList l ++ ofList m := by
-  apply ByteArray.ext; simp [ofList, ByteArray.data_append]
-
-theorem trans_EncodeLogRecord_eq (r : Record) (header : ByteArray)
-    (hk : r.key.size < 2^63) (hv : r.value.size < 2^63) (hb : r.batch < 2^64)
-    (hfit : (headerBytes r).size ≤ header.size) :
-    datafile.EncodeLogRecord (goRecord r) header = encodeRecord r := by
-  rw [size_headerBytes] at hfit
-  have hsz1 : (binary_PutVarint (r.key.size : Int)).size = (putVarintNat r.key.size).length := by
-    rw [PutVarint_eq, size_ofList]
-  have hsz2 : (binary_PutVarint (r.value.size : Int)).size = (putVarintNat r.value.size).length := by
-    rw [PutVarint_eq, size_ofList]
-  have hsz3 : (binary_PutUvarint r.batch).size = (putUvarint r.batch).length := by
-    rw [PutUvarint_eq, size_ofList]
-  have l1 : (putVarintNat r.key.size).length ≤ 10 := putUvarint_length_le _ (by omega)
-  have l2 : (putVarintNat r.value.size).length ≤ 10 := putUvarint_length_le _ (by omega)
-  have l3 := putUvarint_length_le r.batch hb
-  simp (disch := omega) only [datafile.EncodeLogRecord, goRecord, hsz1, hsz2, hsz3, i64_of_range, ByteArray.empty_append]
-  have hP : encodeRecord r = ((((ByteArray.empty ++ ByteArray.mk #[UInt8.ofNat r.typ]) ++ binary_PutVarint (r.key.size : Int))
-      ++ binary_PutVarint (r.value.size : Int)) ++ binary_PutUvarint r.batch) ++ r.key ++ r.value := by
-    rw [PutVarint_eq, PutVarint_eq, PutUvarint_eq, encodeRecord, ofList_cons, ofList_append, ofList_append]
-    simp only [ByteArray.empty_append, ByteArray.append_assoc]
-  rw [hP]
-  congr 2
-  have hT : (ByteArray.mk #[UInt8.ofNat r.typ]).size = 1 := rfl
-  refine pre_extract (pre_putAt (pre_putAt (pre_putAt (pre_putAt (pre_empty header) ?_ ?_) ?_ ?_) ?_ ?_) ?_ ?_) ?_
-  all_goals simp only [ByteArray.size_append, ByteArray.size_empty, hT, hsz1, hsz2, hsz3]
-  all_goals omega
-
-/-- with the engine's 21-byte header buffer (`MaxLogRecordHeaderSize`) and key / value sizes below 2^31
-    (5-byte varints) the header always fits -/
-theorem trans_EncodeLogRecord_eq21 (r : Record) (header : ByteArray)
-    (hk : r.key.size < 2^31) (hv : r.value.size < 2^31) (hb : r.batch < 2^64)
-    (hfit : datafile.MaxLogRecordHeaderSize ≤ header.size) :
-    datafile.EncodeLogRecord (goRecord r) header = encodeRecord r := by
-  have h63 : (2:Nat) ^ 31 ≤ 2 ^ 63 := by decide
-  have h32 : (2:Nat) ^ 32 = 2 * 2 ^ 31 := by decide
-  have p1 := putUvarint_length_le5 (2 * r.key.size) (by omega)
-  have p2 := putUvarint_length_le5 (2 * r.value.size) (by omega)
-  have p3 := putUvarint_length_le r.batch hb
-  refine trans_EncodeLogRecord_eq r header (by omega) (by omega) hb ?_
-  rw [size_headerBytes]
-  unfold putVarintNat
-  simp only [datafile.MaxLogRecordHeaderSize] at hfit
-  omega
-
-example : datafile.EncodeLogRecord { Type_ := 1, Key := ⟨#[0x6b, 0x31]⟩, Value := ⟨#[0x76]⟩, BatchID := 300 } (mkBytes 21)
-    = encodeRecord ⟨1, ⟨#[0x6b, 0x31]⟩, ⟨#[0x76]⟩, 300⟩ :=
-  trans_EncodeLogRecord_eq21 ⟨1, ⟨#[0x6b, 0x31]⟩, ⟨#[0x76]⟩, 300⟩ (mkBytes 21) (by decide) (by decide)
-    (by decide) (by simp)
-
-/-- encode with the translated Go encoder, decode with the translated Go decoder -/
-theorem trans_Decode_Encode (r : Record) (header : ByteArray) (ht : r.typ < 256)
-    (hk : r.key.size < 2^31) (hv : r.value.size < 2^31) (hb : r.batch < 2^64) (hfit : 21 ≤ header.size) :
-    datafile.DecodeLogRecord (datafile.EncodeLogRecord (goRecord r) header) = goRecord r := by
-  rw [trans_EncodeLogRecord_eq21 r header hk hv hb hfit, trans_DecodeLogRecord_enc r ht hk hv hb]
-
-theorem trans_EncodeHintRecord_eq (key : ByteArray) (p : Pos) (hintPos : ByteArray)
-    (h1 : p.fid < 2^32) (h2 : p.block < 2^32) (h3 : p.off < 2^32) (h4 : p.size < 2^32)
-    (hfit : (putUvarint p.fid).length + (putUvarint p.block).length + (putUvarint p.off).length
-      + (putUvarint p.size).length ≤ hintPos.size) :
-    datafile.EncodeHintRecord key (goPos p) hintPos = encodeHint key p := by
-  have h64 : (2:Nat) ^ 32 ≤ 2 ^ 64 := by decide
-  have hsz : ∀ x, (binary_PutUvarint x).size = (putUvarint x).length := fun x => by rw [PutUvarint_eq, size_ofList]
-  have l1 := putUvarint_length_le p.fid (by omega)
-  have l2 := putUvarint_length_le p.block (by omega)
-  have l3 := putUvarint_length_le p.off (by omega)
-  have l4 := putUvarint_length_le p.size (by omega)
-  simp (disch := omega) only [datafile.EncodeHintRecord, goPos, hsz, i64_of_range, ByteArray.empty_append]
-  have hP : encodeHint key p = ((((ByteArray.empty ++ binary_PutUvarint p.fid) ++ binary_PutUvarint p.block)
-      ++ binary_PutUvarint p.off) ++ binary_PutUvarint p.size) ++ key := by
-    rw [PutUvarint_eq, PutUvarint_eq, PutUvarint_eq, PutUvarint_eq, encodeHint, ofList_append, ofList_append, ofList_append]
-    simp only [ByteArray.empty_append, ByteArray.append_assoc]
-  rw [hP]
-  congr 1
-  refine pre_extract (pre_putAt (pre_putAt (pre_putAt (pre_putAt (pre_empty hintPos) ?_ ?_) ?_ ?_) ?_ ?_) ?_ ?_) ?_
-  all_goals simp only [ByteArray.size_append, ByteArray.size_empty, hsz]
-  all_goals omega
-
-/-- with the engine's 25-byte position buffer (`MaxLogRecordPosSize`) the four varints always fit -/
-theorem trans_EncodeHintRecord_eq25 (key : ByteArray) (p : Pos) (hintPos : ByteArray)
-    (h1 : p.fid < 2^32) (h2 : p.block < 2^32) (h3 : p.off < 2^32) (h4 : p.size < 2^32)
-    (hfit : 20 ≤ hintPos.size) :
-    datafile.EncodeHintRecord key (goPos p) hintPos = encodeHint key p := by
-  have p1 := putUvarint_length_le5 p.fid h1
-  have p2 := putUvarint_length_le5 p.block h2
-  have p3 := putUvarint_length_le5 p.off h3
-  have p4 := putUvarint_length_le5 p.size h4
-  exact trans_EncodeHintRecord_eq key p hintPos h1 h2 h3 h4 (by omega)
-
-example : datafile.EncodeHintRecord ⟨#[0x6b]⟩ { Fid := 3, BlockID := 70000, Offset := 5, Size := 300 } (mkBytes 25)
-    = encodeHint ⟨#[0x6b]⟩ ⟨3, 70000, 5, 300⟩ :=
-  trans_EncodeHintRecord_eq25 ⟨#[0x6b]⟩ ⟨3, 70000, 5, 300⟩ (mkBytes 25) (by decide) (by decide) (by decide) (by decide) (by simp)
-
-/-! ## `(*DataFile).Size` and `(*DataFile).readToBuf` -/
-
-/-- `df.Size()` of a writer state `(lastBlockID, lastBlockSize) = (size / BS, size % BS)` is the file size -/
-theorem trans_Size_eq (n : Nat) (h : n / BS < 2^32) : datafile.Size (n / BS) (n % BS) = (n : Int) := by
-  rw [hBS] at h ⊢
-  simp (disch := omega) only [datafile.Size, i64_of_range]
-  omega
-
-example : datafile.Size 3 17 = 98321 := by decide
-
-abbrev RSt := datafile.readToBuf.St
-
-/-- the window of the block buffer that `DecodeChunk` looks at, after the read effect -/
-theorem read_window (b file : ByteArray) (base size lo : Nat) (hsz : base + size ≤ file.size) :
-    (putAt b 0 (file.extract base (base + (size - 0)))).extract lo size = file.extract (base + lo) (base + size) := by
-  have hs : (file.extract base (base + size)).size = size := by rw [ByteArray.size_extract]; omega
-  unfold putAt
-  rw [Nat.sub_zero, hs, ByteArray.extract_eq_empty_iff.2 (by omega : min 0 b.size ≤ 0), ByteArray.empty_append,
-    ByteArray.extract_append, hs, ByteArray.extract_extract,
-    ByteArray.extract_eq_empty_iff.2 (by omega : min (size - size) (b.extract (0 + size) b.size).size ≤ lo - size)]
-  simp only [ByteArray.append_empty]
-  congr 1
-  omega
-
-theorem size_read (b file : ByteArray) (base size : Nat) (hsz : base + size ≤ file.size) (hb : size ≤ b.size) :
-    (putAt b 0 (file.extract base (base + (size - 0)))).size = b.size := by
-  have hs : (file.extract base (base + (size - 0))).size = size := by rw [ByteArray.size_extract]; omega
-  rw [size_putAt _ _ _ (by omega)]
-
-/-- Go's error value for a model read result -/
-def ofOutErr : Out ByteArray → Option String
-  | .ok _ => none
-  | .eof => some "io.EOF"
-  | .err => some "ErrInvalidCRC"
-
-set_option linter.unusedSimpArgs false in
-/-- one iteration of the translated loop is the model's `chunkRand` -/
-theorem rbody0_spec (file : ByteArray) (st : RSt) (B O : Nat)
-    (hB : st.blockID = B) (hO : st.offset = O) (hbs : st.block.size = 32768) (hfs : st.fileSize = (file.size : Int))
-    (hB32 : B < 2^32) (hO32 : O < 2^32) (hf : file.size < 2^62) :
-    match chunkRand Chunk.crcCodec file B O with
-    | .eof => datafile.readToBuf.body0 file crcNat st = .ret (some "io.EOF", st.out)
-    | .err => datafile.readToBuf.body0 file crcNat st = .ret (some "ErrInvalidCRC", st.out)
-    | .ok (p, t) =>
-      if @Eq Nat t 0 ∨ @Eq Nat t 3 then ∃ st', datafile.readToBuf.body0 file crcNat st = .brk st' ∧ st'.out = st.out ++ p
-      else ∃ st', datafile.readToBuf.body0 file crcNat st = .next st' ∧ st'.out = st.out ++ p ∧
-        st'.blockID = (B + 1) % 2^32 ∧ st'.offset = 0 ∧ st'.block.size = 32768 ∧ st'.fileSize = (file.size : Int) := by
-  subst hB hO
-  generalize hr : chunkRand Chunk.crcCodec file st.blockID st.offset = r
-  unfold chunkRand at hr
-  simp only [] at hr
-  split at hr
-  · rename_i h1
-    rw [hBS] at h1
-    subst hr
-    simp (disch := omega) only [datafile.readToBuf.body0, datafile.blockSize, hfs, i64_of_range, if_pos]
-  · rename_i h1
-    split at hr
-    · rename_i h2
-      rw [hBS] at h1 h2
-      subst hr
-      simp (disch := omega) only [datafile.readToBuf.body0, datafile.blockSize, hfs, i64_of_range, if_pos, if_neg]
-    · rename_i h2
-      rw [hBS] at h1 h2 hr
-      have hsize : (min ((file.size : Int) - (st.blockID : Int) * ((32768 : Nat) : Int)) ((32768 : Nat) : Int) % 2 ^ 32).toNat
-          = min (file.size - st.blockID * 32768) 32768 := by omega
-      have hoff : ((st.blockID : Int) * ((32768 : Nat) : Int)).toNat = st.blockID * 32768 := by omega
-      have hwin := read_window st.block file (st.blockID * 32768) (min (file.size - st.blockID * 32768) 32768) st.offset (by omega)
-      have hdec := trans_DecodeChunk_eq (file.extract (st.blockID * 32768 + st.offset)
-              (st.blockID * 32768 + min (file.size - st.blockID * 32768) 32768))
-      have hsr := size_read st.block file (st.blockID * 32768) (min (file.size - st.blockID * 32768) 32768) (by omega) (by omega)
-      have hcd : Chunk.crcCodec.dec = Chunk.dec := rfl
-      rw [hcd] at hr
-      generalize Chunk.dec (file.extract (st.blockID * 32768 + st.offset)
-              (st.blockID * 32768 + min (file.size - st.blockID * 32768) 32768)) = d at hr hdec
-      cases d with
-      | ok p t =>
-        simp only [] at hr
-        subst hr
-        simp only [ofDecOut] at hdec
-        by_cases ht : @Eq Nat t 0 ∨ @Eq Nat t 3
-        · simp (disch := omega) only [datafile.readToBuf.body0, datafile.blockSize, datafile.Full, datafile.Last, hfs,
-            i64_of_range, if_pos, if_neg, hsize, hoff, hwin, hdec, ne_eq, not_true_eq_false, ↓reduceIte]
-          exact ⟨_, rfl, rfl⟩
-        · simp (disch := omega) only [datafile.readToBuf.body0, datafile.blockSize, datafile.Full, datafile.Last, hfs,
-            i64_of_range, if_pos, if_neg, hsize, hoff, hwin, hdec, ne_eq, not_true_eq_false, ↓reduceIte]
-          exact ⟨_, rfl, rfl, rfl, rfl, hsr.trans hbs, rfl⟩
-      | incomplete =>
-        simp only [] at hr
-        subst hr
-        simp only [ofDecOut] at hdec
-        simp (decide := true) (disch := omega) only [datafile.readToBuf.body0, datafile.blockSize, hfs,
-          i64_of_range, if_pos, if_neg, hsize, hoff, hwin, hdec, ne_eq, not_true_eq_false, not_false_eq_true, ↓reduceIte, reduceCtorEq]
-      | badCrc =>
-        simp only [] at hr
-        subst hr
-        simp only [ofDecOut] at hdec
-        simp (decide := true) (disch := omega) only [datafile.readToBuf.body0, datafile.blockSize, hfs,
-          i64_of_range, if_pos, if_neg, hsize, hoff, hwin, hdec, ne_eq, not_true_eq_false, not_false_eq_true, ↓reduceIte, reduceCtorEq]
-
-theorem chunkRand_ok_lt {C : Codec} {f : ByteArray} {B O : Nat} {x : ByteArray × CT}
-    (h : chunkRand C f B O = .ok x) : B * BS < f.size := by
-  unfold chunkRand at h
-  simp only [] at h
-  split at h
-  · cases h
-  · omega
-
-/-- how the result of the translated loop corresponds to a model result, from a state with output `acc` -/
-def LoopRel (acc : ByteArray) (res : Option (RSt ⊕ (Option String × ByteArray))) : Out ByteArray → Prop
-  | .ok p => ∃ st', res = some (.inl st') ∧ st'.out = acc ++ p
-  | .eof => ∃ o, res = some (.inr (some "io.EOF", o))
-  | .err => ∃ o, res = some (.inr (some "ErrInvalidCRC", o))
-
-theorem rloop0_spec (file : ByteArray) (hf : file.size / BS + 1 < 2^32) :
-    ∀ (fuel : Nat) (st : RSt) (B O : Nat), st.blockID = B → st.offset = O → st.block.size = 32768 →
-      st.fileSize = (file.size : Int) → B < 2^32 → O < 2^32 →
-      (file.size + BS - 1) / BS + 1 ≤ B + fuel → 1 ≤ fuel →
-      LoopRel st.out (datafile.readToBuf.loop0 file crcNat fuel st) (readLoop Chunk.crcCodec file B O fuel) := by
-  have hBS := hBS
-  rw [hBS] at hf
-  intro fuel
-  induction fuel with
-  | zero => intro st B O _ _ _ _ _ _ _ h; omega
-  | succ fuel ih =>
-    intro st B O hB hO hbs hfs hB32 hO32 hfuel _
-    rw [hBS] at hfuel
-    have hb := rbody0_spec file st B O hB hO hbs hfs hB32 hO32 (by omega)
-    rw [readLoop, datafile.readToBuf.loop0]
-    generalize hc : chunkRand Chunk.crcCodec file B O = c at hb
-    cases c with
-    | eof =>
-      simp only [] at hb ⊢
-      rw [hb]
-      exact ⟨_, rfl⟩
-    | err =>
-      simp only [] at hb ⊢
-      rw [hb]
-      exact ⟨_, rfl⟩
-    | ok x =>
-      obtain ⟨p, t⟩ := x
-      have hlt := chunkRand_ok_lt hc
-      rw [hBS] at hlt
-      simp only [] at hb ⊢
-      by_cases ht : @Eq Nat t 0 ∨ @Eq Nat t 3
-      · rw [if_pos ht] at hb ⊢
-        obtain ⟨st', e1, e2⟩ := hb
-        rw [e1]
-        exact ⟨st', rfl, e2⟩
-      · rw [if_neg ht] at hb ⊢
-        obtain ⟨st', e1, e2, e3, e4, e5, e6⟩ := hb
-        rw [e1]
-        simp only [Ctl.step]
-        have e3' : st'.blockID = B + 1 := by rw [e3]; omega
-        have := ih st' (B + 1) 0 e3' e4 e5 e6 (by omega) (by omega) (by rw [hBS]; omega) (by omega)
-        generalize readLoop Chunk.crcCodec file (B + 1) 0 fuel = r at this ⊢
-        cases r with
-        | ok q =>
-          obtain ⟨st'', f1, f2⟩ := this
-          exact ⟨st'', f1, by rw [f2, e2, ByteArray.append_assoc]⟩
-        | eof => exact this
-        | err => exact this
-
-/-- **`(*DataFile).readToBuf` = the model's `readAt`** (with the concrete CRC codec), for every file whose
-    block count fits `uint32`, every pooled block buffer content, every `(blockID, offset)` in `uint32` range,
-    and the writer state `(lastBlockID, lastBlockSize) = (size / BS, size % BS)` of that file:
-    `.ok payload ↦ (nil, payload)`, `.eof ↦ io.EOF`, `.err ↦ ErrInvalidCRC` -/
-theorem trans_readToBuf_eq (file block0 : ByteArray) (blockID offset : Nat)
-    (hb0 : block0.size = 32768) (hfile : file.size / BS + 1 < 2^32) (hblk : blockID < 2^32) (hoff : offset < 2^32) :
-    ∃ out, datafile.readToBuf block0 file crcNat (file.size / BS) (file.size % BS) blockID offset
-        = some (ofOutErr (readAt Chunk.crcCodec file blockID offset), out) ∧
-      ∀ p, readAt Chunk.crcCodec file blockID offset = .ok p → out = p := by
-  have hBS := hBS
-  unfold readAt
-  simp only [datafile.readToBuf]
-  by_cases h0 : blockID > file.size / BS
-  · rw [if_pos h0, if_pos h0]
-    exact ⟨_, rfl, fun p h => by cases h⟩
-  · rw [if_neg h0, if_neg h0]
-    have hsz := trans_Size_eq file.size (by omega)
-    have := rloop0_spec file hfile (file.size + 1)
-      { blockID := blockID, offset := offset, block := block0, fileSize := datafile.Size (file.size / BS) (file.size % BS),
-        off := 0, size := 0, data := ByteArray.empty, chunkType := 0, err := none, out := ByteArray.empty }
-      blockID offset rfl rfl hb0 hsz hblk hoff (by rw [hBS] at h0 ⊢; omega) (by omega)
-    generalize readLoop Chunk.crcCodec file blockID offset (file.size + 1) = r at this ⊢
-    cases r with
-    | ok q =>
-      obtain ⟨st', f1, f2⟩ := this
-      rw [f1]
-      refine ⟨_, rfl, fun p h => ?_⟩
-      cases h
-      rw [f2]; simp
-    | eof =>
-      obtain ⟨o, f1⟩ := this
-      rw [f1]
-      exact ⟨_, rfl, fun p h => by cases h⟩
-    | err =>
-      obtain ⟨o, f1⟩ := this
-      rw [f1]
-      exact ⟨_, rfl, fun p h => by cases h⟩
-
-/-- read-back through the translated reader (with `Frame.readAt_write`): at the position the model writer
-    reports for a record `d` appended to `f`, `readToBuf` returns `(nil, d)`, whatever was appended later -/
-theorem trans_readToBuf_write (d f post block0 : ByteArray) (fid : Nat) (hd : 0 < d.size)
-    (hb0 : block0.size = 32768)
-    (hF : (appendRec Chunk.crcCodec f d ++ post).size / BS + 1 < 2^32) :
-    datafile.readToBuf block0 (appendRec Chunk.crcCodec f d ++ post) crcNat
-        ((appendRec Chunk.crcCodec f d ++ post).size / BS) ((appendRec Chunk.crcCodec f d ++ post).size % BS)
-        (posOf Chunk.crcCodec fid f.size d).block (posOf Chunk.crcCodec fid f.size d).off
-      = some (none, d) := by
-  have hBS := hBS; have hH := hH
-  have hgt := size_appendRec_gt Chunk.crcCodec f d hd
-  have hm := mod_lt_BS f.size
-  have hle : f.size / BS ≤ (appendRec Chunk.crcCodec f d ++ post).size / BS := by
-    apply Nat.div_le_div_right
-    rw [ByteArray.size_append]; omega
-  have hblk : (posOf Chunk.crcCodec fid f.size d).block < 2^32 := by
-    simp only [posOf, normB]; split <;> omega
-  have hoff : (posOf Chunk.crcCodec fid f.size d).off < 2^32 := by
-    simp only [posOf, normO]; split <;> omega
-  obtain ⟨out, h1, h2⟩ := trans_readToBuf_eq (appendRec Chunk.crcCodec f d ++ post) block0 _ _ hb0 hF hblk hoff
-  have hr := readAt_write Chunk.crcCodec d f post fid hd
-  rw [h1, hr, h2 d hr]
-  rfl
-
-/-- an empty file: `io.EOF` -/
-example : ∃ out, datafile.readToBuf (mkBytes 32768) ByteArray.empty crcNat 0 0 0 0 = some (some "io.EOF", out) := by
-  obtain ⟨out, h, _⟩ := trans_readToBuf_eq ByteArray.empty (mkBytes 32768) 0 0 (by simp) (by decide) (by decide) (by decide)
-  exact ⟨out, h⟩
-
-end XixiKV.TransEq
